@@ -110,6 +110,30 @@ def gen_case(seed):
         sc["script"] += [{"t": t0 + 1.0, "side": "client", "op": "ping", "uid": 6000}, {"t": t0 + 2.0, "side": "server", "op": "ping", "uid": 6001}]
         sc["horizon"] = 30.0
         sc["mode"] = "many-ranges-burst"
+    r9 = random.Random("c12-longrtt/%s" % seed)
+    if r9.random() < 0.08:
+        # directed: a long path (RTT 0.2-0.6 s, so the endpoints measure a large smoothed RTT) towards a peer that
+        # advertises a max_ack_delay of its own far above 25 ms (legal up to 2^14 ms; aioquic itself always says 25):
+        # what an endpoint owes is the delay *it* advertised, whatever the path and the peer's parameters are.
+        # Isolated ack-eliciting packets (PINGs every 0.3-0.7 s) in both directions, little else.
+        for k in ("resume", "resume_forget", "retry", "frontend_vn"):
+            sc["opts"].pop(k, None)
+        if sc["opts"].get("versions_server") == ["v1"]:
+            sc["opts"].pop("versions_server")
+        big = r9.choice([100, 200, 1000, 16383])
+        who = r9.choice(["client", "server", "both"])
+        for side in ("client", "server"):
+            if who in (side, "both"):
+                sc["opts"]["advertise_" + side] = {"max_ack_delay": big}
+        sc["fates"] = {"delay": r9.choice([0.1, 0.15, 0.3]), "adv_seconds": 0.0, "loss": 0.0}
+        sc["script"] = [{"t": 0.2, "side": "client", "op": "write", "sid": 0, "n": 3000, "fin": False},
+                        {"t": 0.2, "side": "server", "op": "write", "sid": 1, "n": 3000, "fin": False}]
+        t = 2.0
+        for i in range(12):
+            t += r9.choice([0.3, 0.5, 0.7])
+            sc["script"].append({"t": round(t, 3), "side": r9.choice(["client", "server"]), "op": "ping", "uid": 7000 + i})
+        sc["horizon"] = 60.0
+        sc["mode"] = "long-rtt-peer-max-ack-delay"
     r3 = random.Random("c12-late0rtt/%s" % seed)
     if r3.random() < 0.12:
         # directed: a resumed session whose 0-RTT datagram (early data written just after the first flight left) is held
